@@ -81,3 +81,47 @@ func H_C16_docx_table_grid() {
 	vAssert("model-table-shape", mt != nil && len(mt.Rows) == rows)
 	vReach("end")
 }
+
+// H_C16_docx_model_table_columns: in the document model every cell text sits in the grid column where its cell starts,
+// also to the right of a cell that is merged in both directions.
+//
+//symgo:harness prop=C16 kernel=K1-docx-model-table
+//symgo:desc 2 rows x 2 cells; the first cell of each row has gridSpan = a symbolic digit 1..3 (same in both rows); the first cell of row 2 is a vertical-merge continuation or a regular cell (enumerated): model.Table cell [r][span] holds the text of the second cell of row r, cell [0][0] the first text; RowSpan of the merge root = 2 when continued
+func H_C16_docx_model_table_columns() {
+	d := vAnyByteOf("123")
+	span := int(d - '0')
+	cont := vAnyIntIn(0, 1) == 1
+	mk := func(text string, gs bool, vm int) tableCellXML {
+		var c tableCellXML
+		if gs {
+			c.Properties.GridSpan.Val = string([]byte{d})
+		}
+		switch vm {
+		case 1:
+			c.Properties.VMerge = vMergeXML{XMLName: xml.Name{Local: "vMerge"}, Val: "restart"}
+		case 2:
+			c.Properties.VMerge = vMergeXML{XMLName: xml.Name{Local: "vMerge"}}
+		}
+		c.Paragraphs = []paragraphXML{vPara(text)}
+		return c
+	}
+	var tbl tableXML
+	vm2 := 0
+	if cont {
+		vm2 = 2
+	}
+	tbl.Rows = []tableRowXML{
+		{Cells: []tableCellXML{mk("A", true, 1), mk("B", false, 0)}},
+		{Cells: []tableCellXML{mk("", true, vm2), mk("C", false, 0)}},
+	}
+	pt := NewTableParser(nil).ParseTable(tbl)
+	mt := pt.ToModelTable()
+	vAssert("model-shape", mt != nil && len(mt.Rows) == 2 && len(mt.Rows[0]) >= span+1 && len(mt.Rows[1]) >= span+1)
+	vAssert("first-cell", mt.Rows[0][0].Text == "A")
+	vAssert("row0-second-cell-in-its-column", mt.Rows[0][span].Text == "B")
+	vAssert("row1-second-cell-in-its-column", mt.Rows[1][span].Text == "C")
+	if cont {
+		vAssert("merge-root-rowspan", mt.Rows[0][0].RowSpan == 2)
+	}
+	vReach("end")
+}
